@@ -32,7 +32,7 @@ def codec_rt(cx, type):
     cx.check(m2 == msg, 'roundtrip-eq')            # the real __eq__
     cx.check(cx.And(m2.type == type, set(vars(m2)) == set(attrs) | {'type', 'time'},
                     *[cx.eq(getattr(m2, a), vals[a]) for a in attrs]), 'roundtrip-attrs')
-    cx.check(m2.time is t and msg.time is t, 'time-identity')
+    cx.check(m2.time == t and msg.time == t, 'time-identity')       # (for the opaque token == is identity)
     mb = msg.bin()
     cx.check(cx.eq(list(mb), b), 'bin')
     cx.check(mido.Message.from_bytes(mb, time=t) == msg, 'from-bin')
@@ -60,7 +60,7 @@ def codec_rt_sysex(cx, L):
         m2 = mido.Message.from_bytes(src, time=t)
         cx.check(m2 == msg, 'roundtrip-eq')
         cx.check(cx.And(m2.type == 'sysex', cx.eq(list(m2.data), data)), 'roundtrip-data')
-        cx.check(m2.time is t, 'time-identity')
+        cx.check(m2.time == t, 'time-identity')
     cx.observe('decoded', list(m2.data))
 
 
@@ -91,7 +91,7 @@ def hex_rt(cx, type, L=0):
     n = len(msg)
     cx.check(text.count(sep) >= (n - 1 if sep else 0), 'hex-shape')
     cx.check(m2 == msg, 'hex-roundtrip')
-    cx.check(m2.time is t, 'time-identity')
+    cx.check(m2.time == t, 'time-identity')
 
 
 BOUNDS = {
